@@ -128,7 +128,7 @@ def effective_name(td):
     return n
 
 
-def module(cid, td, text, pats, exhaustive):
+def module(cid, td, text, pats, exhaustive, specs=True):
     if td.notes.get("padded"):
         return module_padded(cid, td, text, pats)
     size = td.notes["size"]
@@ -147,8 +147,14 @@ def module(cid, td, text, pats, exhaustive):
     body = ["assert_eq!(::core::mem::size_of::<%s>(), SIZE, \"SIZE-MISMATCH\");" % ty,
             "for (i, p) in PATS.iter().enumerate() {", "    let u = mk(p);"]
     if "Debug" in td.traits:
-        body.append("    %sobs(\"%s\", \"dbg\", i, -1, &format!(\"{}\\t{}\\t{}\\t{}\", %shex(&format!(\"{:?}\", u)), %shex(&format!(\"{:?}\", Ref(*p))), "
-                    "%shex(&format!(\"{:#?}\", u)), %shex(&format!(\"{:#?}\", Ref(*p)))));" % (RT, cid, RT, RT, RT, RT))
+        # the caller's formatter options (hex, width, sign, alignment) must reach the byte slice as they are
+        lim = 3 if specs else 0     # not under Miri (formatting is the slowest thing it interprets)
+        specs = "{:x?}|{:X?}|{:#x?}|{:5?}|{:02x?}|{:+?}|{:<9?}|{:#06X?}"
+        args_u = ", ".join(["u"] * 8)
+        args_r = ", ".join(["Ref(*p)"] * 8)
+        body.append("    %sobs(\"%s\", \"dbg\", i, -1, &format!(\"{}\\t{}\\t{}\\t{}\\t{}\\t{}\", %shex(&format!(\"{:?}\", u)), %shex(&format!(\"{:?}\", Ref(*p))), "
+                    "%shex(&format!(\"{:#?}\", u)), %shex(&format!(\"{:#?}\", Ref(*p))), %shex(&if i < %d { format!(\"%s\", %s) } else { String::new() }), %shex(&if i < %d { format!(\"%s\", %s) } else { String::new() })));"
+                    % (RT, cid, RT, RT, RT, RT, RT, lim, specs, args_u, RT, lim, specs, args_r))
     if "Hash" in td.traits:
         body.append("    %sobs(\"%s\", \"hash\", i, -1, &format!(\"{}\\t{}\", %srec_hash(&u), %srec_hash(&p[..])));" % (RT, cid, RT, RT))
     if "Clone" in td.traits:
@@ -250,12 +256,12 @@ def main(tier, seed, scale=1.0):
             text = "#[derive(::educe::Educe)]\n#[educe(%s)]\npub union Un {\n    pub a: u16,\n    pub b: u8,\n    pub raw: [u8; 2],\n}\n" % attrs
             exh.append(("x%d" % j, td, text, [[0, 0], [1, 2]]))
 
-    def progs_for(cs, nb, exhaustive=False):
+    def progs_for(cs, nb, exhaustive=False, specs=True):
         progs = {}
         for i, sh in enumerate(H.shard(cs, nb)):
             p = H.Program()
             for cid, td, text, pats in sh:
-                p.add_case(cid, module(cid, td, text, pats, exhaustive), "%s::run();" % cid)
+                p.add_case(cid, module(cid, td, text, pats, exhaustive, specs), "%s::run();" % cid)
             progs["u%d" % i] = p
         return progs
     allc = cases + exh
@@ -277,7 +283,7 @@ def main(tier, seed, scale=1.0):
     padded = [c for c in cases if c[1].notes.get("padded")]
     plain = [c for c in cases if not c[1].notes.get("padded")]
     mcases = [(cid, td, text, pats[:5]) for cid, td, text, pats in plain[:max(1, n_miri - 3)] + padded[:3]]
-    mprogs = progs_for(mcases, min(NCPU, max(1, len(mcases) // 4)))
+    mprogs = progs_for(mcases, min(NCPU, max(1, len(mcases) // 4)), specs=False)
     mdrop, _, _ = H.compile_programs("c20m", mprogs)
     mall = {}
     for b in mprogs:
@@ -350,7 +356,10 @@ def main(tier, seed, scale=1.0):
                 msg = None
                 if op == "dbg":
                     got, ref, gotp, refp = [H.unhex(x) for x in res[:4]]
-                    if got != expected_dbg(name, pats[i]) or got != ref or gotp != refp:
+                    if len(res) >= 6 and res[4] != res[5]:
+                        msg = ("Debug output under other format specifications ({:x?} {:X?} {:#x?} {:5?} {:02x?} {:+?} {:<9?} {:#06X?}) is not what "
+                               "the byte slice prints\nobserved: %r\nexpected: %r" % (H.unhex(res[4]), H.unhex(res[5])))
+                    elif got != expected_dbg(name, pats[i]) or got != ref or gotp != refp:
                         msg = ("Debug output is not the %d bytes of the value under the effective name\nobserved: %r\nexpected: %r\n"
                                "pretty observed: %r\npretty expected: %r" % (len(pats[i]), got, expected_dbg(name, pats[i]), gotp, refp))
                 elif op == "hash":
@@ -404,6 +413,7 @@ def main(tier, seed, scale=1.0):
                       ("missing" if cls.startswith("no-unsafe") else "not the first parameter", r.get("st"), t), {"input.rs": t})
         bad.add(cid)
     # Clone applicability: requires Copy fields
+    probe_noncopy_clone(chk)
     probe_clone(chk, seed, bad)
     for cid, td, text, pats in allc:
         if cid not in bad:
@@ -411,6 +421,42 @@ def main(tier, seed, scale=1.0):
             chk.count("%s/name=%s" % ("generic" if td.params else "plain", td.tsem.get("Debug", {}).get("name")))
             chk.sample({"case": cid, "source": text, "patterns": len(pats), "size": td.notes["size"]}, limit=3)
     return chk.finish()
+
+
+NONCOPY_CLONE = [
+    # (case, union with a field that is not Copy + educed Clone in some bound mode): none of these may compile, a union
+    # can only be cloned by copying it
+    ("auto", "#[educe(Clone)]", "<T>", "::core::mem::ManuallyDrop<T>"),
+    ("auto_concrete", "#[educe(Clone)]", "", "::core::mem::ManuallyDrop<::std::vec::Vec<u8>>"),
+    ("bound_pred", "#[educe(Clone(bound(T: ::core::clone::Clone)))]", "<T>", "::core::mem::ManuallyDrop<T>"),
+    ("bound_str", "#[educe(Clone(bound = \"T: ::core::clone::Clone\"))]", "<T>", "::core::mem::ManuallyDrop<T>"),
+    ("bound_false", "#[educe(Clone(bound = false))]", "", "::core::mem::ManuallyDrop<::std::string::String>"),
+    ("bound_false_generic", "#[educe(Clone(bound = false))]", "<T>", "::core::mem::ManuallyDrop<T>"),
+    ("bound_all", "#[educe(Clone(bound(*)))]", "<T>", "::core::mem::ManuallyDrop<T>"),
+    ("bound_empty", "#[educe(Clone(bound()))]", "<T>", "::core::mem::ManuallyDrop<T>"),
+]
+
+
+def probe_noncopy_clone(chk):
+    p = H.Program()
+    for cid, attr, gen, fty in NONCOPY_CLONE:
+        p.add_case("nc_" + cid, "pub mod nc_%s {\n#[derive(::educe::Educe)]\n%s\npub union Slot%s {\n    pub value: %s,\n    pub raw: u8,\n}\n}\n"
+                   % (cid, attr, gen, fty))
+    try:
+        dropped, _, _ = H.compile_programs("c20n", {"n0": p}, rounds=len(NONCOPY_CLONE) + 2, subcmd="check")
+    except Exception as e:
+        chk.inconc("noncopy-probe-build")
+        log("C20: non-Copy clone probe: %s" % e)
+        return
+    for cid, attr, gen, fty in NONCOPY_CLONE:
+        chk.evaluations += 1
+        if "nc_" + cid in dropped["n0"]:
+            chk.count("noncopy-clone-refused")
+            chk.held("noncopy:" + cid, True, 0)
+        else:
+            chk.violation("clone-without-copy|%s" % cid, "educed Clone on a union with a field that is not Copy compiles (%s): the clone "
+                          "cannot be a bitwise copy of a Copy value\n%s pub union Slot%s { value: %s, raw: u8 }" % (cid, attr, gen, fty),
+                          {"case.rs": p.texts["nc_" + cid]})
 
 
 def probe_clone(chk, seed, bad):
